@@ -1068,6 +1068,8 @@ fn random_case(etype: &'static str, seed: u64, idx: u64, via_mode: u64) -> Case 
                 0 => len,
                 1 => len + 1 + p.below(3),
                 2 => u64::MAX - p.below(2),
+                // in range only after a truncating cast (u8 / u16 / u32 / i64) in an adapter
+                3 if p.chance(1, 2) => (1u64 << *p.pick(&[8u32, 16, 32, 63])) + p.below(len.max(1)),
                 _ => p.below(len.max(1)),
             }
         };
@@ -1174,6 +1176,14 @@ fn boundary_cases(etype: &'static str) -> Vec<Case> {
             // the known finding's witness
             texts.push("f:0:0,0 it:0@s".into());
         }
+    }
+    // indices that are in range only after a truncating cast (the script-side
+    // adapters take u64 and call the usize API; `ffi::list_get` likewise)
+    for at in ["", "@s"] {
+        texts.push(format!(
+            "f:0:{},{},{}{at} g:0:256{at} g:0:65537{at} g:0:4294967296{at} g:0:4294967298{at} g:0:9223372036854775808{at} g:0:9223372036854775809{at} s:0:4294967296:1{at} s:0:2:4294967297{at} s:0:256:1{at} s:0:1:65538{at} s:0:9223372036854775808:2{at} s:0:18446744073709551614:1{at} v:0",
+            v(1), v(2), v(3)
+        ));
     }
     if !z {
         // element VALUES that matter to contains / index / == / get / to_vec / for:
